@@ -172,6 +172,9 @@ class ClassInfo:
         self.bases = bases
         self.fields = fields
         self.ctor = ctor
+        self.opaque = False
+        self.returns: dict[str, str] = {}
+        self.pure: set[str] = set()
 
 
 class Contract:
@@ -246,9 +249,24 @@ class Program:
     def klass(
         self, name: str, file: str | None, bases: list[str],
         fields: dict[str, str], ctor: dict[str, Any] | None = None,
+        opaque: bool = False, returns: dict[str, str] | None = None,
+        pure: list[str] | None = None,
     ) -> None:
+        """opaque=True: an object known only through its abstract state
+        (field ``absstate`` of an uninterpreted sort): a method call without
+        a contract is logged as an effect, forgets the abstract state of
+        the receiver and of its opaque arguments, and returns an arbitrary
+        value of the declared type."""
         self.tenv.add(name, TRef(name))
+        if opaque:
+            if 'AbsState' not in self.tenv.named:
+                self.opaque('AbsState')
+            fields = dict(fields)
+            fields.setdefault('absstate', 'AbsState')
         self.classes[name] = ClassInfo(name, file, bases, {}, ctor)
+        self.classes[name].opaque = opaque
+        self.classes[name].returns = returns or {}
+        self.classes[name].pure = set(pure or [])
         self._pending = getattr(self, '_pending', [])
         self._pending.append((name, fields))
 
